@@ -12,3 +12,5 @@ import SquidModel.Properties.C07
 #print axioms SquidModel.C07.dispatches_le_max_tries
 #print axioms SquidModel.C07.nonretriable_never_reuses_pconn
 #print axioms SquidModel.C07.race_retry_uses_fresh_connection
+#print axioms SquidModel.C07.scenario_is_a_history
+#print axioms SquidModel.C07.scenario_non_idempotent_at_most_once_partial
